@@ -168,9 +168,12 @@ def lshr_simplifier(val, shift):
 def lshift_simplifier(val, shift):
     if (shift == 0).is_true():
         return val
-    if val.op == "__lshift__":
+    if val.op == "__lshift__" and val.args[1].op == "BVV" and shift.op == "BVV":
+        # (x << a) << b  ->  x << (a + b), with the sum saturated at the bit width: the bitvector sum a + b may
+        # wrap around, and a shift by the width or more yields zero
         real_val, inner_shift = val.args
-        return real_val << (inner_shift + shift)
+        total = min(inner_shift.args[0] + shift.args[0], val.size())
+        return real_val << claripy.BVV(total, val.size())
     return None
 
 
